@@ -47,7 +47,7 @@ OK_EXC = ('TypeError', 'ValueError', 'ZeroDivisionError')
 
 class OpCtx(object):
     __slots__ = ('op', 'entry', 'recv', 'args', 'kwargs', 'reach', 'pre', 'clones', 'pidx', 'cancel_kind',
-                 'depth', 'fired', 'recv_inf', 'steps', 'S', 'cidx', 'calls')
+                 'depth', 'fired', 'recv_inf', 'steps', 'S', 'cidx', 'calls', 'self_assign')
 
 
 class Sim(object):
@@ -236,7 +236,9 @@ class Sim(object):
             inf = self.pool.infoof(o)
             if inf is not None and inf.xlock:
                 return None
-        if ctx.recv_inf is not None and any(a is recv for a in args + list(kwargs.values())):
+        ctx.self_assign = name.endswith('#self')
+        if ctx.recv_inf is not None and any(a is recv for a in args + list(kwargs.values())) and not ctx.self_assign:
+            # (x.set(x) proper is a catalogue entry of its own, `#self`, judged as an argument that must not change)
             return None
         rinf = self.pool.infoof(recv) if recv is not None else None
         if rinf is not None and rinf.recipe and not eff.startswith('mutator'):
@@ -387,7 +389,10 @@ class Sim(object):
         inplace_ok = None
         for o, s in ctx.pre:
             if ctx.recv_inf is not None and o is ctx.recv:
-                continue
+                if not (ctx.self_assign and kind == 'ok'):
+                    continue
+                # x.set(x): the receiver is given the value of the argument, which is its own; as an argument
+                # it must not be changed by the call
             now = snap(o)
             if now == s:
                 continue
@@ -398,7 +403,7 @@ class Sim(object):
                     # in-place update nobody else can observe: legal Python semantics for +=
                     inplace_ok = now
                     continue
-            which = 'recv' if o is ctx.recv else 'arg'
+            which = ('arg=recv' if ctx.self_assign else 'recv') if o is ctx.recv else 'arg'
             self.violate('O1.arg', op, {'which': which, 'kind': kind_of(o), 'before': s, 'after': now,
                                         'outcome': kind})
             inf = pool.infoof(o)
